@@ -72,7 +72,11 @@ func (l *List) Put(key []byte, value []byte, seqNum uint64) (full bool) {
 }
 
 func (l *List) Get(key []byte) (kv.Entry, error) {
-	for _, t := range l.tablesSnap() {
+	// Search from the active table back to the oldest sealed one so that the
+	// most recent write for the key wins.
+	tables := l.tablesSnap()
+	for i := len(tables) - 1; i >= 0; i-- {
+		t := tables[i]
 		v, err := t.Get(key)
 		if err != nil {
 			if err == kv.ErrNotFound {
